@@ -111,31 +111,31 @@ Section overflow_cyg.
 
   (* ---------------------------------------------------------------- the whole run *)
   Lemma run_kids_cyg (ks : list call) :
-    Forall (fun k => timed k -> positive k -> forall s hk d, fc s = fcd d -> enabled s = true -> ridx s = d ->
+    Forall (fun k => timed k -> forall s hk d, fc s = fcd d -> enabled s = true -> ridx s = d ->
                      idx s = d -> d <= ms -> Forall okframe (stack s) ->
                      exists s', exec c (flat k) (s, hk) = (s', hk) /\ after' s s' d (recs 0 ms d k)) ks ->
-    all_timed ks -> all_positive ks -> forall s hk d, fc s = fcd d -> enabled s = true -> ridx s = d ->
+    all_timed ks -> forall s hk d, fc s = fcd d -> enabled s = true -> ridx s = d ->
     idx s = d -> d <= ms -> Forall okframe (stack s) ->
     exists s', exec c (flat_map flat ks) (s, hk) = (s', hk) /\ after' s s' d (flat_map (recs 0 ms d) ks).
   Proof.
-    induction 1 as [|k r Hk _ IH]; intros HT HP s hk d Hfc Hen Hr Hi Hd Hok.
+    induction 1 as [|k r Hk _ IH]; intros HT s hk d Hfc Hen Hr Hi Hd Hok.
     - exists s. split; [reflexivity|]. apply after'_nil; assumption.
-    - destruct HT as [Tk Tr]. destruct HP as [Pk Pr].
-      destruct (Hk Tk Pk s hk d Hfc Hen Hr Hi Hd Hok) as (s1 & E1 & A1).
+    - destruct HT as [Tk Tr].
+      destruct (Hk Tk s hk d Hfc Hen Hr Hi Hd Hok) as (s1 & E1 & A1).
       pose proof (after'_idx _ _ _ _ A1) as I1. pose proof (after'_ok _ _ _ _ A1 Hok) as K1.
       assert (A1' := A1). destruct A1' as (b1 & _ & F1 & En1 & _ & R1 & _ & _).
-      destruct (IH Tr Pr s1 hk d F1 En1 R1) as (s2 & E2 & A2); try assumption; [congruence|].
+      destruct (IH Tr s1 hk d F1 En1 R1) as (s2 & E2 & A2); try assumption; [congruence|].
       exists s2. split.
       + cbn [flat_map]. unfold exec in *. rewrite fold_left_app, E1. exact E2.
       + cbn [flat_map]. eapply after'_trans; eassumption.
   Qed.
 
-  Theorem run_call_cyg : forall k, timed k -> positive k -> forall s hk d,
+  Theorem run_call_cyg : forall k, timed k -> forall s hk d,
     fc s = fcd d -> enabled s = true -> ridx s = d -> idx s = d -> d <= ms -> Forall okframe (stack s) ->
     exists s', exec c (flat k) (s, hk) = (s', hk) /\ after' s s' d (recs 0 ms d k).
   Proof.
-    induction k as [a t0 t1 kids IH] using call_ind'. intros HT HP s hk d Hfc Hen Hr Hi Hd Hok.
-    pose proof (run_kids_cyg kids IH (timed_kids _ _ _ _ HT) (positive_kids _ _ _ _ HP)) as RK. clear IH.
+    induction k as [a t0 t1 kids IH] using call_ind'. intros HT s hk d Hfc Hen Hr Hi Hd Hok.
+    pose proof (run_kids_cyg kids IH (timed_kids _ _ _ _ HT)) as RK. clear IH.
     destruct (N.le_gt_cases ms d) as [Hout|Hin].
     - (* the shadow stack is full: this call and everything below is dropped *)
       rewrite recs_beyond by exact Hout.
@@ -145,7 +145,7 @@ Section overflow_cyg.
       exists s'. split; [exact E|]. exists b. cbn [app] in S'.
       repeat split; try assumption; [intro X; discriminate X|rewrite app_nil_r; exact O'].
     - (* below the limit: recorded *)
-      destruct HT as (Ht01 & Ht1 & Hpos & _). destruct HP as (Hlt & _).
+      destruct HT as (Ht01 & Ht1 & Hpos & _).
       cbn [flat]. unfold exec. cbn [fold_left dstep]. rewrite fold_left_app. cbn [fold_left].
       assert (Hg : d < gd) by lia. assert (Hm : idx s < ms) by lia.
       unfold c in *.
@@ -181,13 +181,13 @@ Section overflow_cyg.
         cbn [app]. reflexivity.
   Qed.
 
-  Theorem run_forest_cyg : forall f, all_timed f -> all_positive f ->
+  Theorem run_forest_cyg : forall f, all_timed f ->
     out (fst (exec c (flat_forest f) (init, []))) = flat_map (recs 0 ms 0) f.
   Proof.
-    intros f HT HP.
+    intros f HT.
     destruct (run_kids_cyg f) with (s := init) (hk := @nil bool) (d := 0) as (s' & E & A); try reflexivity; try assumption.
-    - clear HT HP. induction f as [|k r IH]; constructor; [|exact IH].
-      intros Tk Pk s hk d. apply run_call_cyg; assumption.
+    - clear HT. induction f as [|k r IH]; constructor; [|exact IH].
+      intros Tk s hk d. apply run_call_cyg; assumption.
     - lia.
     - constructor.
     - unfold flat_forest. rewrite E. cbn [fst].
